@@ -508,6 +508,9 @@ func (m *otMap) apply(proxy otProxy, plan *otShapePlan, font *Font, buffer *Buff
 			// (plus some past glyphs).
 			//
 			// Only try applying the lookup if there is any overlap. */
+			if int(lookupIndex) >= len(proxy.accels) { // invalid font: the feature references a missing lookup
+				continue
+			}
 			accel := &proxy.accels[lookupIndex]
 			if accel.digest.mayHaveDigest(c.digest) {
 
